@@ -621,3 +621,151 @@ destruct (lookup nm (globals md)) as [[v|]|] eqn:El.
     - specialize (Hwf i m H). rewrite Forall_forall in Hwf. specialize (Hwf j H0). lia. }
   split; auto. split; [lia|]. unfold lib_getattr. now rewrite Hn, Hlk.
 Qed.
+
+(* ================================================================== *)
+(* ---- statements that hold for ANY world (cyclic include graphs, dangling indices, any depth) *)
+
+Section DFSAnyWorld.
+  Context {A : Type}.
+  Variable own : nat -> module -> option (fres A).
+  Variable descend : nat -> module -> bool.
+
+  (* the loop returns the answer of some module's own table, or what a recursive call returned *)
+  Lemma dfs_loop_cases : forall rc w l r, dfs_loop own descend rc w l = r ->
+    r = NotFound \/
+    (exists i m1, In i l /\ nth_error w i = Some m1 /\ own i m1 = Some r) \/
+    (exists i m1, In i l /\ nth_error w i = Some m1 /\ own i m1 = None /\ rc (includes m1) = r /\ r <> NotFound).
+  Proof.
+  induction l as [|i l IH]; intros r H; cbn [dfs_loop] in H; [now left|].
+  destruct (nth_error w i) as [m1|] eqn:En.
+  - destruct (own i m1) as [x|] eqn:Eo.
+    + subst. right. left. exists i, m1. cbn; auto.
+    + destruct (descend i m1).
+      * destruct (rc (includes m1)) as [a| |e] eqn:Er.
+        -- subst. right. right. exists i, m1. cbn. repeat split; auto. discriminate.
+        -- destruct (IH r H) as [?|[(j & m2 & ? & ? & ?)|(j & m2 & ? & ? & ? & ? & ?)]]; auto.
+           ++ right. left. exists j, m2. cbn; auto.
+           ++ right. right. exists j, m2. cbn; repeat split; auto.
+        -- subst. right. right. exists i, m1. cbn. repeat split; auto. discriminate.
+      * destruct (IH r H) as [?|[(j & m2 & ? & ? & ?)|(j & m2 & ? & ? & ? & ? & ?)]]; auto.
+        -- right. left. exists j, m2. cbn; auto.
+        -- right. right. exists j, m2. cbn; repeat split; auto.
+  - destruct (IH r H) as [?|[(j & m2 & ? & ? & ?)|(j & m2 & ? & ? & ? & ? & ?)]]; auto.
+    + right. left. exists j, m2. cbn; auto.
+    + right. right. exists j, m2. cbn; repeat split; auto.
+  Qed.
+
+  (* every outcome other than NotFound is a module's own answer, or the RuntimeError of the cap, or OutOfFuel *)
+  Lemma dfs_outcome_origin : forall f w included r x,
+    dfs own descend f w included r = x -> x <> NotFound ->
+    x = Error RuntimeError \/ x = Error OutOfFuel \/ exists i m1, nth_error w i = Some m1 /\ own i m1 = Some x.
+  Proof.
+  induction f as [|f IH]; intros w included r x H Hx; cbn [dfs] in H.
+  - subst. auto.
+  - destruct included as [|i0 l0]; [congruence|].
+    destruct (100 <? r); [subst; auto|].
+    destruct (dfs_loop_cases _ _ _ _ H) as [?|[(i & m1 & _ & En & Eo)|(i & m1 & _ & En & _ & Er & _)]].
+    + congruence.
+    + right. right. eauto.
+    + eapply IH; eauto.
+  Qed.
+
+  (* THE FUEL LEMMA: started with recursion = 0 and cap_fuel = 103 units, the search never runs out of fuel:
+     the recursion cap (100) fires first.  No hypothesis on the world. *)
+  Lemma dfs_never_out_of_fuel :
+    (forall i m, own i m <> Some (Error OutOfFuel)) ->
+    forall f w included r, r <= 101 -> 102 <= f + r ->
+    dfs own descend f w included r <> Error OutOfFuel.
+  Proof.
+  intros Hown. induction f as [|f IH]; intros w included r Hr Hf; [lia|].
+  cbn [dfs]. destruct included as [|i0 l0]; [discriminate|].
+  destruct (100 <? r) eqn:Ec; [discriminate|]. apply Nat.ltb_ge in Ec.
+  intros H. destruct (dfs_loop_cases _ _ _ _ H) as [?|[(i & m1 & _ & En & Eo)|(i & m1 & _ & En & _ & Er & _)]].
+  - discriminate.
+  - eapply Hown; eauto.
+  - revert Er. apply IH; lia.
+  Qed.
+End DFSAnyWorld.
+
+Lemma struct_own_never_error : forall nm un i m e, struct_own nm un i m <> Some (Error e).
+Proof.
+intros. unfold struct_own. destruct (find_struct nm (structs m) 0) as [[a b]|]; [|discriminate].
+destruct (negb (s_external b) && Bool.eqb (s_union b) un); discriminate.
+Qed.
+
+Lemma const_own_no_fuel : forall nm i m, const_own nm i m <> Some (Error OutOfFuel).
+Proof. intros. unfold const_own. destruct (lookup nm (globals m)) as [[v|]|]; discriminate. Qed.
+
+Lemma lib_own_no_fuel : forall nm i m, lib_own nm i m <> Some (Error OutOfFuel).
+Proof. intros. unfold lib_own. destruct (has_lib m); destruct (lookup nm (globals m)) as [[v|]|]; discriminate. Qed.
+
+(* none of the three lookups ever reports OutOfFuel, on any world, from any module *)
+Lemma lookups_never_out_of_fuel : forall w m nm un,
+  resolve_struct w m nm un <> Error OutOfFuel /\
+  integer_const w m nm <> Error OutOfFuel /\
+  lib_getattr w m nm <> Error OutOfFuel.
+Proof.
+intros w m nm un. repeat split.
+- unfold resolve_struct, fetch_external. destruct (nth_error w m) as [md|]; [|discriminate].
+  destruct (find_struct nm (structs md) 0) as [[sidx s]|]; [|discriminate].
+  destruct (negb (Bool.eqb (s_union s) un)); [discriminate|].
+  destruct (negb (s_external s)); [discriminate|].
+  pose proof (dfs_never_out_of_fuel (struct_own nm un) (struct_descend nm)
+               (fun i m0 => struct_own_never_error nm un i m0 OutOfFuel) cap_fuel w (includes md) 0) as H.
+  destruct (dfs (struct_own nm un) (struct_descend nm) cap_fuel w (includes md) 0) as [x| |e] eqn:E; try discriminate.
+  intros X. inversion X; subst. apply H; unfold cap_fuel; auto; lia.
+- unfold integer_const, fetch_int_constant_from. destruct (nth_error w m) as [md|]; [|discriminate].
+  destruct (const_own nm m md) as [x|] eqn:Eo.
+  + destruct x as [v| |e]; try discriminate. intros X. inversion X; subst. eapply const_own_no_fuel; eauto.
+  + pose proof (dfs_never_out_of_fuel (const_own nm) (fun _ _ => true) (const_own_no_fuel nm) cap_fuel w (includes md) 0) as H.
+    destruct (dfs (const_own nm) (fun _ _ => true) cap_fuel w (includes md) 0) as [x| |e] eqn:E; try discriminate.
+    intros X. inversion X; subst. apply H; unfold cap_fuel; auto; lia.
+- unfold lib_getattr. destruct (nth_error w m) as [md|]; [|discriminate].
+  destruct (lookup nm (globals md)) as [[v|]|]; try discriminate.
+  pose proof (dfs_never_out_of_fuel (lib_own nm) (fun _ _ => true) (lib_own_no_fuel nm) cap_fuel w (includes md) 0) as H.
+  destruct (dfs (lib_own nm) (fun _ _ => true) cap_fuel w (includes md) 0) as [x| |e] eqn:E; try discriminate.
+  intros X. inversion X; subst. apply H; unfold cap_fuel; auto; lia.
+Qed.
+
+(* soundness of struct resolution on ANY world: whatever "struct nm" resolves to is a real non-external
+   definition of that kind (no wf_world, no depth bound) *)
+Lemma resolve_struct_sound_any : forall w m nm un d,
+  resolve_struct w m nm un = Found d -> defines w (fst d) (snd d) nm un.
+Proof.
+intros w m nm un d. unfold resolve_struct, fetch_external.
+destruct (nth_error w m) as [md|] eqn:En; [|discriminate].
+destruct (find_struct nm (structs md) 0) as [[sidx s]|] eqn:Ef; [|discriminate].
+destruct (Bool.eqb (s_union s) un) eqn:Eu; cbn [negb]; [|discriminate].
+destruct (s_external s) eqn:Ee; cbn [negb].
+- destruct (dfs (struct_own nm un) (struct_descend nm) cap_fuel w (includes md) 0) as [x| |e] eqn:E; try discriminate.
+  intros H; inversion H; subst.
+  destruct (dfs_outcome_origin _ _ _ _ _ _ _ E) as [X|[X|(i & m1 & Hn & Ho)]]; try discriminate.
+  eapply struct_own_found; eauto.
+- intros H; inversion H; subst. cbn. exists md, s. repeat split; auto; try now apply eqb_prop.
+Qed.
+
+(* a RuntimeError can only be the recursion cap; FFIError for a struct only "external entry without definition" *)
+Lemma integer_const_error_origin : forall w m nm e, integer_const w m nm = Error e ->
+  e = AttributeError \/ e = RuntimeError \/
+  (e = FFIError /\ exists j mj, nth_error w j = Some mj /\ lookup nm (globals mj) = Some GOther).
+Proof.
+intros w m nm e. unfold integer_const, fetch_int_constant_from.
+destruct (nth_error w m) as [md|] eqn:En.
+2: { cbn. intros H. inversion H. left. reflexivity. }
+assert (G : forall i m1, const_own nm i m1 = Some (Error e) ->
+            e = FFIError /\ lookup nm (globals m1) = Some GOther).
+{ intros i m1. unfold const_own. destruct (lookup nm (globals m1)) as [[v|]|]; try discriminate.
+  intros H; inversion H; subst; auto. }
+destruct (const_own nm m md) as [x|] eqn:Eo.
+- destruct x as [v| |e0]; try discriminate.
+  + intros H; inversion H; subst; auto.
+  + intros H; inversion H; subst. destruct (G _ _ Eo). right. right. split; eauto.
+- destruct (dfs (const_own nm) (fun _ _ => true) cap_fuel w (includes md) 0) as [x| |e0] eqn:E; try discriminate.
+  + intros H; inversion H; subst; auto.
+  + intros H; inversion H; subst.
+    destruct (dfs_outcome_origin _ _ _ _ _ _ _ E) as [X|[X|(i & m1 & Hn & Ho)]]; try discriminate.
+    * inversion X; subst; auto.
+    * exfalso. inversion X; subst. destruct (lookups_never_out_of_fuel w m nm false) as (_ & H2 & _).
+      apply H2. unfold integer_const, fetch_int_constant_from. rewrite En, Eo, E. reflexivity.
+    * destruct (G _ _ Ho). right. right. split; eauto.
+Qed.
